@@ -134,7 +134,7 @@ def lifecycle_trace(results):
 
 def runner_trace(results):
     print("RunnerTrace")
-    d1 = [{"path": "/results/ANALYSIS.root", "run": "1", "inputs": ["/data/default1.root", "/data/default2.root"], "converted": False}]
+    d1 = [{"path": "/results/ANALYSIS.root", "run": "1", "inputs": ["/data/default1.root", "/data/default2.root"], "converted": False, "ident": "1:10:aa"}]
     good = [{"script": "atlas", "invs": [
         {"kind": "full", "d": "", "o": "default", "fault_at": 0, "cls": "none", "exit": 0, "dests": d1},
         {"kind": "run", "d": "/data/x.root", "o": "default", "fault_at": 3, "cls": "job", "exit": 1, "dests": d1}]}]
@@ -148,6 +148,12 @@ def runner_trace(results):
     bad = copy.deepcopy(good)
     bad[0]["invs"][1]["dests"] = [dict(d1[0], run="2")]
     _expect("fresh output after a failed step", _tlc_verdicts("RunnerTrace", "RunnerTrace.cfg", bad), "NoFreshOutputAfterFault", results)
+    bad = copy.deepcopy(good)
+    bad[0]["invs"][1]["dests"] = [dict(d1[0], ident="2:10:aa")]
+    _expect("old output re-stamped by a failed run", _tlc_verdicts("RunnerTrace", "RunnerTrace.cfg", bad), "NoFreshOutputAfterFault", results)
+    bad = copy.deepcopy(good)
+    bad[0]["invs"][1]["dests"] = d1 + [{"path": "/out2/custom.root", "run": "", "inputs": [], "converted": False, "ident": "2:0:da"}]
+    _expect("empty file created by a failed run", _tlc_verdicts("RunnerTrace", "RunnerTrace.cfg", bad), "NoFreshOutputAfterFault", results)
 
 
 def inject_trace(results):
